@@ -12,18 +12,21 @@
 
 namespace vd {
 
+// symbol names carry a salt: the process-wide symbolic alphabet assigns codes in registration order, so varying the names over the
+// cases of a run makes the MTBDD symbol encodings use many different bit patterns (numOf reads back the code before the 'x')
+static unsigned long long g_salt = 0;
 inline std::string timbukText(const TA& a) {
 	std::map<U, U> rank; std::set<U> states(a.finals.begin(), a.finals.end());
 	for (auto& r : a.rules) { rank[r.sym] = r.ch.size(); states.insert(r.par); states.insert(r.ch.begin(), r.ch.end()); }
 	std::ostringstream os; os << "Ops";
-	for (auto& kv : rank) os << " s" << kv.first << ":" << kv.second;
+	for (auto& kv : rank) os << " s" << kv.first << "x" << g_salt << ":" << kv.second;
 	os << "\nAutomaton A\nStates";
 	for (U q : states) os << " q" << q;
 	os << "\nFinal States";
 	for (U q : a.finals) os << " q" << q;
 	os << "\nTransitions\n";
 	for (auto& r : a.rules) {
-		os << "s" << r.sym;
+		os << "s" << r.sym << "x" << g_salt;
 		if (!r.ch.empty()) { os << "("; for (size_t i = 0; i < r.ch.size(); ++i) os << (i ? "," : "") << "q" << r.ch[i]; os << ")"; }
 		os << " -> q" << r.par << "\n";
 	}
